@@ -26,9 +26,13 @@ Both take the *shape* of `Reload` as parameters so that the same statements can 
 code as it is and for the proposed repair:
 `aw` — does `Reload` go on when `newFileConfig` returns a config *and* a warnings-only error
        (as coded: no, `if err != nil { return err }`; `NewConfig` does);
-`Lock` — `asCoded`: hashes compared outside any lock, `f.mux` held only around the assignment;
-         `cas`: compare-and-assign in one critical section; `serial`: the whole `Reload` under a
-         dedicated mutex.
+`Lock` — `cas`: `f.mux` is taken before the hashes are compared and held through the assignment
+         (compare-and-assign is one critical section) — the code as it is since commit 8a38f8f;
+         file reading and `newFileConfig` still run before the lock and the callbacks after it;
+         `unlocked`: the shape before that commit (hashes compared outside any lock, `f.mux` held only
+         around the assignment), kept to record which defect the commit removed;
+         `serial`: the whole `Reload` under a dedicated mutex (proposed).
+`Lock.asCoded` is `cas`.
 -/
 namespace Refinery.Model.Reload
 
@@ -151,14 +155,17 @@ end Seq
 /-! ## Overlapping triggers -/
 
 inductive Lock where
-  | asCoded | cas | serial
+  | unlocked | cas | serial
   deriving DecidableEq, Repr
+
+/-- the locking `fileConfig.Reload` has now (commits 8a38f8f, f62292a) -/
+@[reducible] def Lock.asCoded : Lock := .cas
 
 inductive Pc where
   | idle            -- trigger has not fired
   | read            -- in `Reload` (serial: holding the reload mutex), about to read the files and build
-  | cmp             -- `newFileConfig` succeeded, about to compare the hashes
-  | asg             -- hashes differed, about to `mux.Lock(); assign; mux.Unlock()`
+  | cmp             -- `newFileConfig` succeeded, about to compare the hashes (`cas`: lock, compare, assign, unlock)
+  | asg             -- (`unlocked`/`serial` only) hashes differed, about to `mux.Lock(); assign; mux.Unlock()`
   | ntf (j : Nat)   -- about to call callback `j`
   | done
   deriving DecidableEq, Repr
